@@ -14,6 +14,21 @@ MARGIN = 30 * MS               # margin of the spec-level predicates
 OPC = {"fail": 0, "succ": 1, "query": 2, "ban": 3, "unban": 4, "cleanup": 5, "bladd": 6, "blrm": 7, "wladd": 8,
        "wlrm": 9, "allowed": 10, "blcleanup": 11, "allowip": 12, "rlcleanup": 13, "hs": 14, "restart": 15}
 DUR_OPS = ("ban", "bladd")
+# token forms of a ClientID == 0 handshake, probed on the real handler at the start of every run (harness kind "tokens")
+TOK = {"forms": ["new-client"], "registers": [True], "charged": [True]}
+
+
+def hs_kind(arg):
+    """(kind, token form) of a handshake op; kind 0 = unknown non-zero client id, 1 / 2 = ClientID 0, generation ok / failing"""
+    return arg % 10, arg // 10
+
+
+def hs_model_kind(arg):
+    kind, form = hs_kind(arg)
+    if kind in (1, 2) and not TOK["registers"][form % len(TOK["registers"])]:
+        return 3        # ClientID 0 with a token that does not register: charged, then `client not found`
+    return kind
+
 CURRENT = (1, 1, 0, 0, 0)     # [cond_unban, keep_stronger, late_goroutines, anon_resets, first_match]
 # explanations of an observation by a defect the model keeps as a pinned variant: ([variant flags ...], finding keys);
 # with several flag tuples an answer may come from any of them (first-match lookup: Go map order decides per call)
@@ -64,6 +79,8 @@ class Script:
         return self.slot * 50 + 8 + self.k * 3 + self.rng.randrange(0, 3)
 
     def op(self, name, ip=1, arg=0):
+        if name == "hs" and arg in (1, 2) and self.rng.random() < 0.6:
+            arg += 10 * self.rng.randrange(len(TOK["forms"]))      # any candidate token form of a ClientID 0 handshake
         self.ops.append({"at": self.at(), "op": name, "ip": ip, "arg": arg})
         self.k += 1
         if self.k >= 5:
@@ -360,6 +377,26 @@ def gen_overlap(rng, cfg):
     return s.ops
 
 
+def gen_regrate(rng, cfg):
+    """bursts of ClientID 0 handshakes from one address mixing every token form (those the handler registers and those it
+    does not), waits, more bursts"""
+    s = Script(rng)
+    a = 3
+    nf = len(TOK["forms"])
+    reg_forms = [f for f in range(nf) if TOK["registers"][f]] or [0]
+    for _ in range(rng.randrange(2, 5)):
+        for _ in range(rng.randrange(3, 9)):
+            f = rng.choice(reg_forms) if rng.random() < 0.75 else rng.randrange(nf)
+            s.ops.append({"at": s.at(), "op": "hs", "ip": a, "arg": rng.choice([1, 1, 1, 2]) + 10 * f})
+            s.k += 1
+            if s.k >= 5:
+                s.wait(1)
+        if rng.random() < 0.3:
+            s.op("allowip", a, 1)
+        s.wait(rng.choice([1, 2, 4, 11]))
+    return s.ops
+
+
 def gen_restart_mix(rng, cfg):
     """failures, bans and admissions with a restart in between (memory-only state)"""
     s = Script(rng)
@@ -381,7 +418,7 @@ def gen_restart_mix(rng, cfg):
     return s.ops
 
 
-GENS = [("overlap", gen_overlap, 4), ("restart", gen_restart, 4), ("restartmix", gen_restart_mix, 1), ("firstfail", gen_firstfail, 2), ("anon", gen_anon, 2), ("lockout", gen_lockout, 5), ("mix", gen_mix, 6), ("perm", gen_perm, 2), ("blacklist", gen_blacklist, 3),
+GENS = [("regrate", gen_regrate, 3), ("overlap", gen_overlap, 4), ("restart", gen_restart, 4), ("restartmix", gen_restart_mix, 1), ("firstfail", gen_firstfail, 2), ("anon", gen_anon, 2), ("lockout", gen_lockout, 5), ("mix", gen_mix, 6), ("perm", gen_perm, 2), ("blacklist", gen_blacklist, 3),
         ("bucket", gen_bucket, 3), ("reban", gen_reban, 2)]
 
 
@@ -406,7 +443,7 @@ def cfg_value(c):
 def ops_value(case, times):
     out = []
     for o, t in zip(case["ops"], times):
-        arg = o["arg"] * MS if o["op"] in DUR_OPS else o["arg"]
+        arg = o["arg"] * MS if o["op"] in DUR_OPS else (hs_model_kind(o["arg"]) if o["op"] == "hs" else o["arg"])
         out.append([BASE + max(t, -BASE + 1), OPC[o["op"]], o["ip"], arg])
     return out
 
@@ -469,6 +506,15 @@ def spec_check(case, obs):
                         ip, tot, (adm[b][1] - adm[a][0]) / MS, cfg["rate"], cfg["burst"])))
                     return
 
+    def reg_bound(ip, regs):
+        for a in range(len(regs)):
+            for b in range(a, len(regs)):
+                n = b - a + 1
+                if n > cfg["burst"] + cfg["rate"] * (regs[b][1] - regs[a][0]) / NS + 1e-6:
+                    bad.append(("registration-rate", a, "address %d: %d anonymous registrations granted within %.1f ms (rate %d/s, burst %d); tokens used: %s" % (
+                        ip, n, (regs[b][1] - regs[a][0]) / MS, cfg["rate"], cfg["burst"], sorted({r[3] for r in regs[a:b + 1]}))))
+                    return
+
     for ip in ips:
         keys = keys_of(ip)
         fails = []            # indices of failures since the last verified success / restart
@@ -480,6 +526,7 @@ def spec_check(case, obs):
         ent = {}              # key -> (t0, t1, dur ns): the entry in force for that key according to the admin calls
         blcauses = []
         adm = []              # (t0, t1, tokens admitted) since the last restart
+        regs = []             # (t0, t1, 1, token) registrations granted since the last restart
         for i, (o, x) in enumerate(zip(ops, obs)):
             name = o["op"]
             if name not in GLOBAL_OPS and o["ip"] not in keys:
@@ -523,8 +570,9 @@ def spec_check(case, obs):
                 # model's CRestart drops them; the persisted lists (ent, wl) stay.  The limiter starts afresh.
                 fails, life = [], 0
                 must = []
+                reg_bound(ip, regs)
                 bucket_bound(ip, adm)
-                adm = []
+                adm, regs = [], []
             if name in GLOBAL_OPS:
                 continue
             key = o["ip"]
@@ -564,8 +612,11 @@ def spec_check(case, obs):
                 wl[key] = False
             if mine and name == "allowip" and x["r"] == 1:
                 adm.append((x["t0"], x["t1"], o["arg"]))
-            elif mine and name == "hs" and o["arg"] in (1, 2) and x["r"] in (3, 4):
+            elif mine and name == "hs" and hs_kind(o["arg"])[0] in (1, 2) and x["r"] in (3, 4):
                 adm.append((x["t0"], x["t1"], 1))
+            if mine and name == "hs" and x["r"] == 4:
+                regs.append((x["t0"], x["t1"], 1, TOK["forms"][hs_kind(o["arg"])[1] % len(TOK["forms"])]))
+        reg_bound(ip, regs)
         bucket_bound(ip, adm)
     return bad
 
@@ -626,10 +677,12 @@ def run(ctx, only_cases=None):
     try:
         pinfo = vlib.coq_properties("C18")
         vlib.proof_coverage(ctx, pinfo, "make -C coq Properties/C18.vo && coqc Properties/C18.v (Print Assumptions audit)",
-                            extra_obligations=4)  # the 4 regenerated side conditions in Proofs/SideC18.v
+                            extra_obligations=6)  # the 6 regenerated side conditions in Proofs/SideC18.v
     except vlib.Broken as b:
         broken = b
 
+    tok = vlib.run_harness(binary, [{"kind": "tokens"}], timeout=120)[0]
+    TOK.update({"forms": tok["forms"], "registers": tok["registers"], "charged": tok["charged"]})
     if only_cases is not None:
         cases = only_cases
     else:
@@ -804,6 +857,7 @@ def run(ctx, only_cases=None):
         "steps_total": steps, "steps_compared_robust": robust_steps, "steps_ambiguous_not_compared": steps - robust_steps,
         "race_trials": sum(o["trials"] for o in races), "race_trials_ambiguous": ambiguous_trials,
         "race_trials_entry_lost": sum(o["lost"] for o in races),
+        "token_forms_probed": [{"token": t, "registers": r, "charged": c} for t, r, c in zip(TOK["forms"], TOK["registers"], TOK["charged"])],
         "inflight_schedules": len(infl), "blacklist_lookup_probe": probe,
         "burst_first_request_rounds": sum(len(o["admitted"]) for c, o in zip(cases, outs) if c["kind"] == "burst"), "model_vs_impl_cases": len(tcs), "model_vs_impl_mismatches": len(mism),
         "cases_explained_by_pinned_variant": explained, "cases_with_recorded_predicate_findings": known_spec, "impl_property_failures": nfail,
